@@ -590,6 +590,13 @@ func (c *handlerCtx) bindReply(header Header) interface{} {
 
 	// unlock: handleReply
 	c.callCmd.mu.Lock()
+	if c.callCmd.hasReply() || !c.callCmd.stat.OK() {
+		// the call has already been completed (duplicate reply frame, or the
+		// call was cancelled meanwhile): it must not be completed again
+		c.callCmd.mu.Unlock()
+		c.callCmd = nil
+		return nil
+	}
 	c.input.SetServiceMethod(c.callCmd.output.ServiceMethod())
 	c.swap = c.callCmd.swap
 	c.callCmd.inputBodyCodec = c.GetBodyCodec()
